@@ -6,9 +6,9 @@ package main
 
 import (
 	"bytes"
-	"image/color"
 	"encoding/binary"
 	"fmt"
+	"image/color"
 	"math"
 	"os"
 	"os/exec"
@@ -88,6 +88,9 @@ func parseTableDump(b []byte) map[string][]uint32 {
 
 // kinds: "decode" or "encode" (which tables belong to the calling property)
 func gomaxprocsSweep(c *ctx, prop, kind string) {
+	if os.Getenv("VERIF_PLATFORM") != "" {
+		return // this process is itself the 32-bit rerun
+	}
 	own := allTables()
 	// k = 386: the same program built for a 32-bit platform (GOARCH=386), when bin/check could build it
 	bin386 := os.Getenv("VERIF_ROOT") + "/build/bin/vharness386"
@@ -209,12 +212,15 @@ func firstCallsMain() {
 }
 
 func firstCallsCheck(c *ctx, prop string) {
+	if os.Getenv("VERIF_PLATFORM") != "" {
+		return
+	}
 	enc, dec := firstCallInputs()
 	own := firstCallRound()
 	out, err := exec.Command(os.Args[0], "firstcalls").Output()
 	c.res.count("first-calls", prop, true)
 	if err != nil || len(out) != 8*len(own) {
-		c.res.fail(Failure{Class: prop + ":first-calls:process", Desc: "the fresh process making its first encoder/decoder calls failed", Got: fmt.Sprint(err, len(out)), Want: fmt.Sprint(8 * len(own), " bytes")})
+		c.res.fail(Failure{Class: prop + ":first-calls:process", Desc: "the fresh process making its first encoder/decoder calls failed", Got: fmt.Sprint(err, len(out)), Want: fmt.Sprint(8*len(own), " bytes")})
 		return
 	}
 	first := make([]uint32, len(own))
